@@ -10,6 +10,7 @@ import (
 	"sort"
 	"strconv"
 	"strings"
+	"sync"
 	"time"
 
 	"golang.org/x/tools/go/ssa"
@@ -29,6 +30,34 @@ var (
 )
 
 func (p *Program) tier() int { return gTier }
+
+// cross-solver re-checks of deciding (unsat) assertion queries, thorough tier, capped per run
+var (
+	crossMu      sync.Mutex
+	crossBudget  = 300
+	crossAgreed  = map[string]int{}
+	crossUnknown = map[string]int{}
+)
+
+func (p *Program) takeCrossCheck() bool {
+	crossMu.Lock()
+	defer crossMu.Unlock()
+	if crossBudget <= 0 {
+		return false
+	}
+	crossBudget--
+	return true
+}
+
+func (p *Program) noteCross(kind string, agreed bool) {
+	crossMu.Lock()
+	defer crossMu.Unlock()
+	if agreed {
+		crossAgreed[kind]++
+	} else {
+		crossUnknown[kind]++
+	}
+}
 func (p *Program) known(id string) *KnownFinding {
 	if id == "" {
 		return nil
@@ -507,6 +536,8 @@ func writeEvidence(P *Program, verif, prop, tier string, seed int, results []*Ha
 		"solver_time_s":                 solverT.Seconds(),
 		"solver":                        "z3 5.1.0 (z3-new; one process per worker, check-sat-assuming); floating-point and timed-out queries one-shot on z3 4.8.12, z3 5.1.0, cvc5 1.0",
 		"known_findings_seen":           keys(knownSeen),
+		"cross_solver_agreed":           crossAgreed,
+		"cross_solver_unknown":          crossUnknown,
 		"inconclusive_items":            incon,
 		"explanation":                   "states = completed feasible paths of the symbolically executed harnesses; transitions = symbolic branch decisions; every assertion is decided by an SMT query over all values of the symbolic inputs within the harness bounds",
 	}
